@@ -51,7 +51,7 @@ def _fn(fd):
               seq_out=bool(fd.get("seq_out")) and not fd.get("out_shape"),
               outer={v: k for k, v in inner.items()}, dict_out=fd["outputs"] if fd.get("dict_out") else None,
               result_like=bool(fd.get("result_like")) and not fd.get("out_shape") and not fd.get("none_mod"),
-              data_like=bool(fd.get("data_like")) and not fd.get("out_shape") and not fd.get("none_mod"))
+              data_like=fd.get("data_like") if not fd.get("out_shape") and not fd.get("none_mod") else False)
 
 
 def _as_array(v):
